@@ -265,6 +265,12 @@ class Interp(EngineBase):
             if fi is not None or base.cls in self.spec.dep_classes:
                 return BoundMethod(base, attr)
             raise OutOfSubset(f"no schema for {base.cls}.{attr}")
+        if isinstance(base, Sym) and base.kind == 'any' and attr == 'T':
+            # assumed (pandas): transpose swaps rows and columns
+            f = Sym('any', z3.Int(fresh_name('transposed')))
+            self.st.assume(z3.Function('df_rows', I, I)(f.t) == z3.Function('df_cols', I, I)(base.t))
+            self.st.assume(z3.Function('df_cols', I, I)(f.t) == z3.Function('df_rows', I, I)(base.t))
+            return f
         if isinstance(base, Sym) and base.kind == 'enum' and attr == 'value':
             return self.enum_value(base)
         if isinstance(base, EnumConst) and attr == 'value':
@@ -401,6 +407,8 @@ class Interp(EngineBase):
                 return base.items[idx]
         if isinstance(base, Opaque):
             return Opaque(f"{base.what}[...]")
+        if isinstance(base, Sym) and base.kind == 'str':
+            return Sym('str', z3.Int(fresh_name('strpart')))       # a piece of an opaque string (s.split(...)[i], s[i])
         if isinstance(base, Sym) and base.kind == 'ref' and base.cls in self.spec.entities and isinstance(idx, str):
             # JSON object modelled as an entity: obj['key']
             ent = self.spec.entities[base.cls]
